@@ -565,9 +565,25 @@ class FunctionNormalizer(object):
                 break
             prev = cur
             if self.restrict:
+                self._light_tuples()
                 self.pass_temps()
         ast.fix_missing_locations(self.fn)
         return self.fn
+
+    def _light_tuples(self):
+        '''a, b = x, y with only NEW local names on the left is split'''
+        for owner, fld, lst in list(walk_lists(self.fn)):
+            for i, st in enumerate(lst):
+                if isinstance(st, ast.Assign) and len(st.targets) == 1 and isinstance(st.targets[0], ast.Tuple) and \
+                        isinstance(st.value, ast.Tuple) and len(st.targets[0].elts) == len(st.value.elts) and \
+                        all(isinstance(t, ast.Name) and t.id in self.restrict for t in st.targets[0].elts):
+                    ts, vs = st.targets[0].elts, st.value.elts
+                    if any(isinstance(v, ast.Starred) for v in vs):
+                        continue
+                    if any(t.id in names_loaded(v) for k, t in enumerate(ts) for v in vs[k + 1:]):
+                        continue
+                    lst[i:i + 1] = [at(ast.Assign(targets=[t], value=v), st) for t, v in zip(ts, vs)]
+                    break
 
     # -- expressions ----------------------------------------------------------------------------------------
     def pass_exprs(self):
@@ -1544,6 +1560,13 @@ class FunctionNormalizer(object):
                 inner = [n for f2, l2 in stmt_lists(ls) for x in l2 for n in ast.walk(x) if isinstance(n, ast.Name) and n.id == name]
                 if not inner:
                     span[-1] = ast.Expr(value=head)
+        if span:
+            # an assignment that uses the name in its value stores to its targets only after the value has been computed
+            ls = span[-1]
+            if isinstance(ls, (ast.Assign, ast.AugAssign)) and any(isinstance(n, ast.Name) and n.id == name for n in ast.walk(ls.value)):
+                tgts = ls.targets if isinstance(ls, ast.Assign) else [ls.target]
+                if not any(isinstance(n, ast.Name) and n.id == name for t in tgts for n in ast.walk(t)):
+                    span[-1] = ast.Expr(value=ls.value)
         attrs = {n.attr for n in ast.walk(value) if isinstance(n, ast.Attribute)}
         subs = {dump(n) for n in ast.walk(value)}
         sub_bases = {dump(n.value) for n in ast.walk(value) if isinstance(n, ast.Subscript)}
